@@ -115,4 +115,19 @@ theorem commitObj_lib (allow : Bool) : ∀ (o : MObj) (r r' : Rec), commitObj al
     · next c hc =>
       exact (RecLib.recSet hc (LibRel.internalSet allow c _)).trans (commitObj_lib allow rest _ _ h)
 
+/-! ### a freshly loaded scenario -/
+
+/-- every retriever of the record has data and is unmarked -/
+def RecLoaded (r : Rec) : Prop := ∀ f c, r f = some c → CellLoaded c
+
+/-- the state right after `AoE2DEScenario.from_file` / `from_default`: parsing assigns every retriever once (its
+data was `None` before, so nothing is marked) -/
+structure Loaded (s : Scn) : Prop where
+  plain : RecLoaded s.plain
+  lists : ∀ l c, s.lists l = some c → CellLoaded c ∧ ∀ recs, c.data = some recs → ∀ r ∈ recs, RecLoaded r
+
+/-- the struct models give every retriever a default (true for the struct-level retrievers of every shipped
+structure file; re-checked on the live struct models by the harness) -/
+def DfltLoaded (cfg : Cfg) : Prop := ∀ l, RecLoaded (cfg.dflt l)
+
 end Aoe.Dirty
